@@ -1,0 +1,77 @@
+//go:build verif
+// +build verif
+
+package fit
+
+import "reflect"
+
+// This file is only compiled with the "verif" build tag. It gives external
+// verification harnesses read-only access to the generated profile tables.
+// It adds no behaviour to the package.
+
+// VerifField is a plain-value copy of one profile lookup table entry.
+type VerifField struct {
+	MesgNum  uint16
+	FieldNum byte
+	SIndex   int
+	Kind     byte // internal/types.Kind
+	Base     byte // internal/types.Base (decompressed)
+	Array    bool
+	Length   byte
+}
+
+// VerifFields returns a copy of every entry in the profile field lookup
+// table, ordered by message number and field number.
+func VerifFields() []VerifField {
+	var out []VerifField
+	for mn := range _fields {
+		for fn := 0; fn < 256; fn++ {
+			f := _fields[mn][fn]
+			if f == nil {
+				continue
+			}
+			out = append(out, VerifField{
+				MesgNum:  uint16(mn),
+				FieldNum: f.num,
+				SIndex:   f.sindex,
+				Kind:     byte(f.t.Kind()),
+				Base:     byte(f.t.BaseType()),
+				Array:    f.t.Array(),
+				Length:   f.length,
+			})
+		}
+	}
+	return out
+}
+
+// VerifFieldsLen returns the number of message slots in the lookup table.
+func VerifFieldsLen() int { return len(_fields) }
+
+// VerifKnownMesgNums returns the set of message numbers the decoder treats
+// as known, in no particular order.
+func VerifKnownMesgNums() []uint16 {
+	out := make([]uint16, 0, len(knownMsgNums))
+	for mn, ok := range knownMsgNums {
+		if ok {
+			out = append(out, uint16(mn))
+		}
+	}
+	return out
+}
+
+// VerifMesgType returns the Go struct type registered for a message number.
+func VerifMesgType(mn uint16) (reflect.Type, bool) {
+	if int(mn) >= len(msgsTypes) || msgsTypes[mn] == nil {
+		return nil, false
+	}
+	return msgsTypes[mn], true
+}
+
+// VerifNewMesg returns a pointer to a freshly constructed all-invalid message
+// for a message number.
+func VerifNewMesg(mn uint16) (reflect.Value, bool) {
+	if int(mn) >= len(newMesgFuncs) || newMesgFuncs[mn] == nil {
+		return reflect.Value{}, false
+	}
+	return newMesgFuncs[mn](), true
+}
